@@ -23,6 +23,33 @@ PINNED = [
 ]
 
 
+def shape_grammars():
+    """Every way two neighbouring terminals of one rule can meet a cut: literal of several units before / after a regex,
+    two literals, two regexes, inside a bounded repetition, text and bytes (enumerated by Lang.tla like the rest)."""
+    L, R, B = gen.lit_text, gen.regex, gen.lit_bytes
+    bodies = [
+        gen.cat(L("GE"), R([("abc", 1, gen.INF)]), L(";")),
+        gen.cat(R([("01", 1, gen.INF)]), L("ab"), R([("xy", 1, 2)])),
+        gen.cat(L("abc"), gen.alt(R([("ab", 1, 2)]), L("d")), L("\u00e9")),
+        gen.rep(gen.cat(L("xy"), R([("01", 1, 2)])), 1, 2),
+        gen.cat(L("ab"), L("cd"), R([("e", 0, 2)])),
+        gen.cat(R([("ab", 1, 2)]), R([("01", 1, 2), ("c", 1, 1)]), L("zz")),
+        gen.cat(B(b"\x01\x02"), gen.alt(B(b"\x03\x04\x05"), B(b"\x03")), B(b"\x00")),
+    ]
+    return [{"start": "<start>", "rules": {"<start>": b}, "flavour": "bytes" if i == 6 else "text", "computed": 0} for i, b in enumerate(bodies)]
+
+
+# regexes beyond the class-sequence IR (optional groups, alternation, repetition of groups), each followed by a delimiter
+# the regex cannot match, with words written out; the oracle is the whole-input feed of the same word
+RICH = [
+    ('<start> ::= <num> ";"\n<num> ::= r"[0-9]+(\\.[0-9]+)?"\n', ["12.5;", "7;", "3.25;", "10.0;", "1.5;"]),
+    ('<start> ::= "v=" r"(ab|cd)+" "!"\n', ["v=ab!", "v=abcd!", "v=cd!"]),
+    ('<start> ::= <k> "=" <v> ";"\n<k> ::= r"[a-z]+(-[a-z]+)*"\n<v> ::= r"[0-9](,[0-9])*"\n', ["a-b=1;", "ab=1,2;", "a=1,2;", "a-b=1;"]),
+    ('<start> ::= "GET " r"[a-z/]+" "\\n"\n', ["GET /a\n", "GET a\n"]),
+    ('<start> ::= rb"\\x01(\\x02\\x03)?" b"\\xff"\n', [b"\x01\xff", b"\x01\x02\x03\xff"]),
+]
+
+
 _PARSERS = {}
 
 
@@ -53,7 +80,8 @@ def drive(rules, word, cuts, start="<start>"):
 
 def _case(args):
     from harness.fan import make, quiet
-    spec, words, schedules, start = args
+    spec, words, schedules, start = args[:4]
+    must_parse = len(args) > 4 and args[4]
     quiet()
     out = []
     n = 0
@@ -72,6 +100,8 @@ def _case(args):
         except Exception as e:  # noqa
             out.append((repr(inp), [], "whole-input feed raised %s" % type(e).__name__))
             continue
+        if must_parse and not whole:
+            return 0, [], "the word %r, written out as a member of the template's language, is not parsed when fed whole" % (inp,)
         for cuts in schedules[len(inp)]:
             if not cuts:
                 continue
@@ -108,7 +138,7 @@ def run(tier, seed):
     ng, mu = (50, 6) if tier == "quick" else (400, 7)
     rnd = random.Random(seed)
     extra = [gen.rand_bits_grammar(rnd, 16) for _ in range(3 if tier == "quick" else 20)]
-    cases = build_corpus(rep, seed + 2000, ng, mu, bits_share=0.0, bytes_share=0.3)
+    cases = build_corpus(rep, seed + 2000, ng, mu, bits_share=0.0, bytes_share=0.3, extra=shape_grammars())
     # 16-bit grammars are enumerated separately (all their words have 16 units)
     from harness.langenum import enumerate_languages
     bits = {9000 + i: g for i, g in enumerate(extra)}
@@ -129,8 +159,14 @@ def run(tier, seed):
             words = wide + rnd.sample(rest, cap - len(wide))
         nwords += len(words)
         jobs.append((c["spec"], words, schedules, c["g"]["start"]))
+    for spec, words in RICH:
+        cases.append({"spec": spec, "g": {"start": "<start>"}, "rich": True})
+        jobs.append((spec, [w for w in words if len(w) <= 7], schedules, "<start>", True))
+        nwords += len(words)
     total = 0
     for c, (n, out, err) in zip(cases, pmap(_case, jobs)):
+        if c.get("rich") and (err or n == 0):
+            raise common.Machinery("template %r was not exercised: %s" % (c["spec"], err))
         total += n
         for inp, cuts, what in out:
             rep.violation("frag:%s:%s:%s" % (c["spec"], inp, cuts), "input %s fed with cuts at %s to\n%s%s" % (inp, cuts, c["spec"], what),
